@@ -1,11 +1,10 @@
 (* C13 -- State grids are well formed and refinement nests them.  Only statements; proofs in Proofs/C13_Grid.v.
    Model: Model/Grid.v (rpylib/grid/spatial.py CTMCGrid, create_from_fixed_nb_of_points, CTMCCredit, refine;
-   rpylib/grid/grid.py Coordinates).  `mid` stands for grid.middle.  The refinement theorems hold for every STATELESS
-   function that returns a point strictly inside a gap and halves the gap next to the origin; the only proved instance is the
-   arithmetic mean `amid` of CTMCGrid (C13_amid_ok).  CTMCGridProbabilityStep.middle reads grid.h (so it is a different
-   function at every level) and does NOT satisfy mid_left0/mid_right0 for arbitrary arguments: for it only the one-step
-   theorems C13_refine_nests / C13_refine_admissible_axis apply (hypotheses on the axis being refined), level by level;
-   that its root lies strictly inside the bracket is checked by the oracle, not proved. *)
+   rpylib/grid/grid.py Coordinates).  `mid` stands for grid.middle.  The theorems of Section AnyMiddle hold for every STATELESS
+   function that returns a point strictly inside EVERY gap x < y and halves the gap next to the origin; the only proved instance
+   is the arithmetic mean `amid` of CTMCGrid (C13_amid_ok); CTMCGridProbabilityStep.middle does NOT satisfy these hypotheses
+   (middle(-0.001, 0) = -h/2; it reads grid.h).  For such a middle only C13_refine_nests_axis / C13_refine_admissible_axis apply
+   (hypotheses about the gaps of the axis being refined only), one level at a time; their premises are oracle-checked. *)
 From Coq Require Import ZArith QArith List.
 From RV Require Import Base.QB Model.Grid Proofs.C13_Grid.
 Import ListNotations.
@@ -72,13 +71,6 @@ Section AnyMiddle.
     /\ headq (refine_axis mid xs) = headq xs /\ lastq (refine_axis mid xs) = lastq xs.
   Proof. exact (refine_nests mid mid_between). Qed.
 
-  (* one refinement, hypotheses on the axis at hand only: covers a middle that depends on the grid's state (probability-step
-     grid: middle(-h,0) = -grid.h/2, middle(0,h) = grid.h/2 with the h of the level being refined) *)
-  Theorem C13_refine_admissible_axis : forall xs o h, admissible xs o h ->
-    mid (nthq xs (o - 1)) (nthq xs o) == - (h / 2) -> mid (nthq xs o) (nthq xs (o + 1)) == h / 2 ->
-    admissible (refine_axis mid xs) (2 * o) (h / 2).
-  Proof. exact (refine_admissible_axis mid mid_between). Qed.
-
   Theorem C13_refine_admissible : forall g, grid_wf g -> grid_wf (refine mid g).
   Proof. exact (refine_grid_wf mid mid_between mid_left0 mid_right0). Qed.
 
@@ -106,6 +98,24 @@ Section AnyMiddle.
   Proof. exact (refine_n_admissible mid mid_between mid_left0 mid_right0). Qed.
 End AnyMiddle.
 
+(* ONE refinement with hypotheses about the axis at hand only (no property of `mid` at other arguments): mid_inside mid xs says
+   that mid x_i x_{i+1} lies strictly inside the i-th gap of THIS axis.  These are the statements that apply, level by level,
+   to a middle that depends on the grid's state (CTMCGridProbabilityStep.middle reads grid.h; it is NOT a between-function of
+   arbitrary arguments); their premises are checked by the oracle on the implementation, not proved. *)
+Theorem C13_refine_nests_axis : forall mid xs, mid_inside mid xs -> xs <> [] ->
+  length (refine_axis mid xs) = (2 * length xs - 1)%nat
+  /\ (forall i, (i < length xs)%nat -> nthq (refine_axis mid xs) (2 * i) = nthq xs i)
+  /\ (forall i, (i + 1 < length xs)%nat ->
+        nthq (refine_axis mid xs) (2 * i + 1) = mid (nthq xs i) (nthq xs (i + 1))
+        /\ nthq xs i < nthq (refine_axis mid xs) (2 * i + 1) < nthq xs (i + 1))
+  /\ incr (refine_axis mid xs)
+  /\ headq (refine_axis mid xs) = headq xs /\ lastq (refine_axis mid xs) = lastq xs.
+Proof. exact refine_nests_axis. Qed.
+Theorem C13_refine_admissible_axis : forall mid xs o h, admissible xs o h -> mid_inside mid xs ->
+  mid (nthq xs (o - 1)) (nthq xs o) == - (h / 2) -> mid (nthq xs o) (nthq xs (o + 1)) == h / 2 ->
+  admissible (refine_axis mid xs) (2 * o) (h / 2).
+Proof. exact refine_admissible_local. Qed.
+
 (* the arithmetic mean of CTMCGrid.middle satisfies the three hypotheses *)
 Theorem C13_amid_ok : (forall x y, x < y -> x < amid x y /\ amid x y < y)
   /\ (forall x y, y == 0 -> amid x y == x / 2) /\ (forall x y, x == 0 -> amid x y == y / 2).
@@ -129,10 +139,11 @@ Print Assumptions C13_credit_admissible.
 Print Assumptions C13_credit_guards_suffice.
 Print Assumptions C13_refine_loop.
 Print Assumptions C13_refine_nests.
-Print Assumptions C13_refine_admissible_axis.
 Print Assumptions C13_refine_admissible.
 Print Assumptions C13_refine_n.
 Print Assumptions C13_refine_n_axis.
 Print Assumptions C13_refine_n_axis_admissible.
+Print Assumptions C13_refine_nests_axis.
+Print Assumptions C13_refine_admissible_axis.
 Print Assumptions C13_amid_ok.
 Print Assumptions C13_nonvacuous.
